@@ -97,7 +97,6 @@ func runC07(c *Ctx) {
 	runC07Scalar(c, pi)
 	runC07RemoveIf(c, pi)
 	runC07FromRaw(c, pi)
-	runSIB(c, "R9")
 }
 
 func paramName(fn *ssa.Function, i int) string {
